@@ -314,22 +314,24 @@ type Explorer struct {
 	deadline     time.Time
 
 	// results
-	paths      int64
-	byKind     map[outcomeKind]int64
-	witnesses  []*Witness
-	reach      map[string]int64
-	unsupp     map[string]int64
-	limits     map[string]int64
-	unknowns   map[string]int64
-	panics     map[string]int64
-	notes      map[string]string
-	samples    []map[string]any
-	steps      int64
-	decisions  int64
-	maxDepth   int
-	hitLimit   string
-	stopOnViol bool
-	forkSites  map[string]int64
+	paths            int64
+	byKind           map[outcomeKind]int64
+	witnesses        []*Witness
+	witnessClasses   map[string]int
+	witnessesDropped int
+	reach            map[string]int64
+	unsupp           map[string]int64
+	limits           map[string]int64
+	unknowns         map[string]int64
+	panics           map[string]int64
+	notes            map[string]string
+	samples          []map[string]any
+	steps            int64
+	decisions        int64
+	maxDepth         int
+	hitLimit         string
+	stopOnViol       bool
+	forkSites        map[string]int64
 }
 
 func NewExplorer() *Explorer {
@@ -402,7 +404,21 @@ func (e *Explorer) done(r *pathResult) {
 	case oPanic:
 		e.panics[r.msg+where]++
 	}
-	e.witnesses = append(e.witnesses, r.witnesses...)
+	// keep at most 3 counterexamples per (cell, message) class: thousands of inputs for the
+	// same failing shape add nothing, and the classes of listed known findings must not
+	// exhaust the budget of the classes that are not listed
+	for _, wt := range r.witnesses {
+		key := wt.Cell + "\x00" + wt.Msg
+		if e.witnessClasses == nil {
+			e.witnessClasses = map[string]int{}
+		}
+		e.witnessClasses[key]++
+		if e.witnessClasses[key] <= 3 {
+			e.witnesses = append(e.witnesses, wt)
+		} else {
+			e.witnessesDropped++
+		}
+	}
 	for k, v := range r.forks {
 		if e.forkSites == nil {
 			e.forkSites = map[string]int64{}
@@ -412,10 +428,10 @@ func (e *Explorer) done(r *pathResult) {
 	if len(r.witnesses) > 0 && e.stopOnViol {
 		e.stop = true
 	}
-	if len(e.witnesses) >= 40 {
-		// enough counterexamples: exploring (and replaying) thousands more adds nothing
+	if len(e.witnessClasses) >= 40 {
+		// enough distinct counterexample classes: exploring (and replaying) more adds nothing
 		e.stop = true
-		e.hitLimit = "stopped after 40 counterexamples"
+		e.hitLimit = "stopped after 40 classes of counterexamples"
 	}
 	if r.model != nil && len(e.samples) < 8 {
 		s := map[string]any{"outcome": outcomeNames[r.kind], "decisions": r.decisions}
